@@ -407,6 +407,73 @@ def r13_3(prog, rep):
         rep.fail(rid, "free_task/unlink-temp", ft.loc(), "free_task does not unlink t->mfn under t->mrm")
 
 
+def r13_5(prog, rep):
+    """The mail file is shared by the stdout and the stderr watcher (both data_s get .mailfd = t->mfd): where the chunk just spliced
+    sits in it is known only to the file.  The offset handed to sendfile()/pread() on the mail descriptor must therefore derive from
+    a position query on that descriptor (lseek) and the chunk length, never from per-stream bookkeeping alone."""
+    rid = "R13.5"
+    f = prog.fn("data_cb", "echsx.c")
+    cfg = f.cfg
+    # sharing: every data_s initialiser in run_task takes the same mail descriptor
+    rt = prog.fn("run_task", "echsx.c")
+    mails = set()
+    for b, i, x, line in rt.cfg.all_elems():
+        for n in walk(rt.cfg.resolve(x)):
+            if n.get("k") == "init" and "data_s" in (n.get("t") or ""):
+                for name, val in n["fs"]:
+                    if name == "mailfd" and val is not None:
+                        mails.add(lv(val))
+    if len(mails) == 1:
+        rep.ok(rid, "run_task/shared-mail-file", rt.loc(), "both stream watchers append to %s" % sorted(mails)[0])
+    else:
+        rep.note(rid, "run_task/shared-mail-file", rt.loc(), "stream watchers use %s as mail descriptors" % sorted(mails))
+    n = 0
+    for b, i, c, line in f.all_calls():
+        if c.get("fn") not in ("sendfile", "pread"):
+            continue
+        args = [cfg.resolve(a) for a in c["a"]]
+        infd = lv(args[1]) if c["fn"] == "sendfile" else lv(args[0])
+        off = args[2] if c["fn"] == "sendfile" else args[3]
+        offv = None
+        for r in walk(off):
+            if r.get("k") == "ref" and r.get("dk") == "local":
+                offv = r["n"]
+        n += 1
+        key = "data_cb/%s-offset(%s)" % (c["fn"], offv)
+        if offv is None:
+            rep.fail(rid, key, f.loc(line), "%s reads the mail file at %s, which is no variable derived from the file's position" % (c["fn"], show(off)))
+            continue
+        # definition closure of the offset variable
+        seen, work, queried, uses_len = set(), [offv], False, False
+        while work:
+            v = work.pop()
+            if v in seen:
+                continue
+            seen.add(v)
+            for bb, ii, x, ln in cfg.all_elems():
+                for l, kind, nn in writes(x):
+                    if lv(l) != v:
+                        continue
+                    rhs = nn.get("init") if kind == "decl" else nn.get("r")
+                    if rhs is None:
+                        continue
+                    rhs = cfg.resolve(rhs)
+                    for r in walk(rhs):
+                        if r.get("k") == "call" and r.get("fn") == "lseek" and lv(cfg.resolve(r["a"][0])) == infd:
+                            queried = True
+                        if r.get("k") == "ref" and r.get("dk") == "local":
+                            work.append(r["n"])
+        if queried:
+            rep.ok(rid, key, f.loc(line), "offset %s derives from lseek(%s, ...)" % (offv, infd))
+        else:
+            rep.fail(rid, key, f.loc(line),
+                     "the offset %s at which %s() reads the chunk back from the shared mail file %s does not derive from a position query on that file "
+                     "(definitions reach %s): once the other stream has appended to the mail file the wrong bytes are copied to the output file" % (
+                         offv, c["fn"], infd, sorted(seen)))
+    if n < 1:
+        rep.broken_("rule=R13.5 no sendfile/pread of the mail file found in data_cb")
+
+
 def run(prog, rep, tier, snap):
     rep.rule("R13.1", "the 20-row routing table of prep_task against the statement", 20)
     r13_1(prog, rep)
@@ -414,4 +481,9 @@ def run(prog, rep, tier, snap):
     r13_2(prog, rep)
     rep.rule("R13.3", "journal lock pairing, status provenance, clean-up", 6)
     r13_3(prog, rep)
+    rep.rule("R13.5", "tee offset into the shared mail file derives from the file's own position", 2)
+    r13_5(prog, rep)
+    from ..rules import watch
+    rep.rule("R13.4", "child watchers whose callback means 'terminated' are registered for termination only", 1)
+    watch.child_watchers(prog, rep, "R13.4", "echsx.c")
 READY = True
